@@ -49,7 +49,10 @@ pub fn child_main(batch_path: &str, log_path: &str, start: usize, end: usize) ->
     let mut log = Log { f, pending: String::new() };
     let scratch = format!("{log_path}.in.tinydiff");
     let end = end.min(batch.inputs.len());
+    let parent = std::os::unix::process::parent_id();
     for idx in start..end {
+        // an orphaned child (the monitor was killed) must not keep running
+        if std::os::unix::process::parent_id() != parent { return 95; }
         let inp = &batch.inputs[idx];
         let Some(seed) = batch.seeds.get(inp.seed as usize) else { eprintln!("c16 child: bad seed index"); return 98 };
         let input = apply(seed, &inp.edits);
